@@ -48,6 +48,19 @@ def run(ctx):
             for cut in range(len(stream) + 1):
                 lines.append('FRM %d %s,%s' % (len(lines), stream[:cut].hex() or '-', stream[cut:].hex() or '-'))
                 meta.append(('frames', ms))
+    # 1b. bursts: more than 64 KiB in the receive buffer at once (message lengths have 16 bits, what is buffered has not): one read
+    #     with everything, and two reads split around 65536
+    for k in range(3 if quick else 12):
+        ms = []
+        while sum(len(m) for m in ms) < 66000 + 3000 * k:
+            n = rng.choice([20, 50, 200, 900])       # UPDATEs of 103 .. 3623 octets between the short messages
+            ms.append(rng.choice(msgs_pool + [hdr(23 + 4 * n, 2) + b'\x00\x00\x00\x00' + b''.join(b'\x18\x0a' + bytes([i >> 8, i & 255]) for i in range(n))] * 6))
+        stream = b''.join(ms)
+        lines.append('FRM %d %s' % (len(lines), stream.hex()))
+        meta.append(('frames', ms))
+        for cut in [65535, 65536, 65537] + [65400 + rng.below(400) for _ in range(1 if quick else 6)]:
+            lines.append('FRM %d %s,%s' % (len(lines), stream[:cut].hex(), stream[cut:].hex()))
+            meta.append(('frames', ms))
     # 2. random partitions, one-octet reads, empty reads
     for _ in range(300 if quick else 20000):
         ms = [rng.choice(msgs_pool) for _ in range(1 + rng.below(5))]
@@ -164,7 +177,7 @@ def run(ctx):
     path = os.path.join(d, 'cases.txt')
     with open(path, 'w') as f:
         f.write('\n'.join(lines) + '\n')
-    impl, _ = core.run_tool(ctx.harness, ['c09', path], timeout=3000)
+    impl, _ = core.run_tool_sharded(ctx.harness, ['c09'], path, timeout=3000, min_lines=200, interleave=True)
     impl = [l for l in impl if l]
     by = {int(l.split(' ')[1]): l for l in impl}
     stats = {'frames_cases': 0, 'badlen': 0, 'errors': 0}
@@ -229,7 +242,7 @@ def run(ctx):
         if body.endswith('E') or ',E ' in body or body.startswith('E'):
             stats['errors'] += 1
     if ctx.model:
-        model, _ = core.run_tool(ctx.model, ['c09', path], timeout=3000)
+        model, _ = core.run_tool_sharded(ctx.model, ['c09'], path, timeout=3000, min_lines=200, interleave=True)
         for k, a, b in core.diff_lines(model, impl, limit=5):
             idx = int((a if a != '<missing>' else b).split(' ')[1])
             ctx.violation('model and implementation disagree', case=lines[idx][:600], model=a[:300], impl=b[:300])
